@@ -81,6 +81,16 @@ func pubEnc(pk *bec.PublicKey, enc string, r *prng.R) []byte {
 		return b
 	case "empty":
 		return []byte{}
+	case "c-with-04": // the length of one format, the prefix of the other
+		b := pk.SerialiseCompressed()
+		b[0] = 0x04
+		return b
+	case "u-with-02":
+		b := pk.SerialiseUncompressed()
+		b[0] = 0x02 + b[64]&1
+		return b
+	case "long": // 34 bytes
+		return append(pk.SerialiseCompressed(), 0x00)
 	}
 	return pk.SerialiseCompressed()
 }
@@ -224,6 +234,10 @@ type c06Spec struct {
 	// own, <sigX> [NOP*] CODESEPARATOR <pubX> CHECKSIGVERIFY, with a correct
 	// signature of the last key; UnlockCheckHT is its hash type and
 	// UnlockCheckPad the number of NOPs (which moves the separator's index).
+	// LockTail is appended to the locking script behind everything else: a
+	// top-level OP_RETURN followed by 0, 1, 2 or more raw bytes (after Genesis
+	// the script ends there; the bytes still belong to the script code)
+	LockTail       []byte
 	UnlockCheck    bool
 	UnlockCheckHT  byte
 	UnlockCheckPad int
@@ -349,6 +363,7 @@ func c06Make(r *prng.R, sp *c06Spec) *c06Case {
 	for _, e := range el {
 		lock = append(lock, e...)
 	}
+	lock = append(lock, sp.LockTail...)
 	cs.Lock = lock
 	// spending transaction
 	shape := gen.RandShape(r, gen.ShapeOpts{MinIns: 1, MaxIns: 4, MaxOuts: 4})
@@ -515,7 +530,7 @@ func init() {
 		}
 		c.Info("sighash_model_vectors_reproduced", 1000)
 		classes := []string{"correct", "wrong-key", "wrong-digest", "empty", "high-s", "weird-hashtype", "non-der", "forkid-bit-mismatch"}
-		keyEncs := []string{"c", "u", "h", "short", "badprefix", "offcurve", "empty"}
+		keyEncs := []string{"c", "u", "h", "short", "badprefix", "offcurve", "empty", "c-with-04", "u-with-02", "long"}
 		sepKinds := []string{"plain", "unexecuted-if", "executed-if"}
 		run := func(n uint64, mk func(r *prng.R) *c06Spec, class string) {
 			if !c.Case(n) {
@@ -529,7 +544,7 @@ func init() {
 			}
 			cs := c06Make(r, sp)
 			cs.Class = class
-			cs.Desc = fmt.Sprintf("%s m=%d n=%d verify=%v not=%v sep=%d/%s slots=%+v keyenc=%v unlocktail=%x unlockcheck=%v/%#x/%d", sp.Kind, sp.M, sp.N, sp.Verify, sp.Not, sp.SepPos, sp.SepKind, sp.Slots, sp.KeyEnc, sp.UnlockTail, sp.UnlockCheck, sp.UnlockCheckHT, sp.UnlockCheckPad)
+			cs.Desc = fmt.Sprintf("%s m=%d n=%d verify=%v not=%v sep=%d/%s slots=%+v keyenc=%v unlocktail=%x unlockcheck=%v/%#x/%d locktail=%x", sp.Kind, sp.M, sp.N, sp.Verify, sp.Not, sp.SepPos, sp.SepKind, sp.Slots, sp.KeyEnc, sp.UnlockTail, sp.UnlockCheck, sp.UnlockCheckHT, sp.UnlockCheckPad, sp.LockTail)
 			judge(c, cs)
 		}
 		flagsFor := func(r *prng.R) uint32 {
@@ -582,6 +597,9 @@ func init() {
 									}
 									if kind == "p2pk-verify" {
 										sp.Kind, sp.Verify = "p2pk", true
+									}
+									if scriptflag.Flag(fl)&scriptflag.UTXOAfterGenesis != 0 && r.Chance(1, 4) {
+										sp.LockTail = prng.Pick(r, [][]byte{{0x6a}, {0x6a, 0x42}, {0x6a, 0x01}, {0x6a, 0x01, 0x42}, {0x6a, 0xac, 0x4c}, {0x6a, 0x05, 0x01, 0x02}, {0x6a, 0x51, 0x52, 0x53, 0x54}})
 									}
 									sp.Slots = []c06Slot{slot(r, 0, cl, fork)}
 									if r.Chance(1, 4) && scriptflag.Flag(fl)&scriptflag.VerifySigPushOnly == 0 { // a signature check inside the unlocking script as well
@@ -637,7 +655,7 @@ func init() {
 								sp.UnlockTail = prng.Pick(r, [][]byte{{0xab}, {0xab, 0x6a}, {0x61, 0xab, 0x6a}, {0x6a}})
 							}
 							for i := 0; i < N; i++ {
-								sp.KeyEnc = append(sp.KeyEnc, prng.Pick(r, []string{"c", "c", "u", "c", "u", "h", "badprefix"}))
+								sp.KeyEnc = append(sp.KeyEnc, prng.Pick(r, []string{"c", "c", "u", "c", "u", "h", "badprefix", "c", "c-with-04", "u-with-02"}))
 							}
 							x := a
 							for i := 0; i < M; i++ {
